@@ -148,7 +148,7 @@ CHECKS = {
         category="model_checking",
         text=("Project.tla: TLC explores all interleavings of one-chromosome down-sampling steps and checks closed form = "
               "composition (confluence), two-step = direct, mass, sign, identity, commutation with marginalization; every "
-              "coefficient of every operator in the grid and exact large-size rows are compared with Scs::project and sfs view."),
+              "coefficient of every operator in the grid and exact large-size rows are compared with Scs::project and sfs view. Two-population cohorts whose joint denominator leaves the f64 range are checked through create (CreateLarge.tla, factored form)."),
         design_ref="DESIGN.md section 3 (C03)",
         note=("Grid exhaustive in the bound (quick: 1 axis n<=8, 2 axes n<=3; thorough: 1 axis n<=12, 2 axes n<=5, 3-4 axes n<=2); "
               "one-axis sizes up to 4000 are samples. Trusted: TLC, Q.class (BigInteger), harness f64 evaluation of linear forms."),
@@ -158,7 +158,7 @@ CHECKS = {
         category="model_checking",
         text=("Marginalize.tla: every order of one-axis removals from every shape in the bound; path independence, equality with the "
               "declarative sum, mass, and the as-coded validate/sort/shift operator are TLC invariants; every path and every probe "
-              "(valid or invalid axis sequence) is replayed on Spectrum::marginalize and `sfs view -m/-M`."),
+              "(valid or invalid axis sequence) is replayed on Spectrum::marginalize and `sfs view -m/-M`. SpectrumLarge.tla repeats the joint removal for every proper subset of axes on concrete spectra of 66049-90000 cells (expected entries computed exactly by TLC)."),
         design_ref="DESIGN.md section 3 (C04)",
         note=("Exhaustive in the bound (quick: 1-4 axes lengths 1-3; thorough: 1-5 axes lengths 1-3 plus an unequal-length catalogue "
               "up to length 6). Trusted: TLC, harness evaluation."),
@@ -168,7 +168,7 @@ CHECKS = {
         category="model_checking",
         text=("Fold.tla: sequences of fold/mirror on symbolic spectra; declarative fold = as-coded fold, mass (fill 0), idempotence, "
               "polarity symmetry and 'lower cells are fill' are TLC invariants in every state; every behaviour is replayed on "
-              "Spectrum::fold for all four fills and on `sfs fold`."),
+              "Spectrum::fold for all four fills and on `sfs fold`. SpectrumLarge.tla folds concrete spectra of 66049-84000 cells with exact expected entries."),
         design_ref="DESIGN.md section 3 (C05)",
         note=("Exhaustive in the bound (quick: 1-3 axes lengths 1-4, 3 ops; thorough: 1-3 axes lengths 1-7 with 3 ops, 1-4 axes "
               "lengths 1-5 with 2 ops). Trusted: TLC, harness mirror/evaluation."),
